@@ -134,6 +134,8 @@ class Repeat(BlockCommand):
         var_name: str | None = None
         if isinstance(arg_parts, list):
             var_name, argument = arg_parts
+            # Checked here as well: with zero iterations the name is never bound.
+            self.env.var.verify_var_name(var_name, can_be_sys_var=False)
 
         new_code: CompiledReturn = CompiledReturn()
         count = 0
